@@ -208,13 +208,20 @@ struct Lattice_Term g_ft; struct Lattice_Term nondet_Term(void);
 #define PresetsC_NupNdown6(l, v, o1, o2, s1, s2) FT(NN_POST(l, l, v, o1, o2, s1, s2))
 #define PresetsC_SplusSminus(l1, l2, v, o) FT(IS_SPSM(&g_ft, v, l1, l2, o))
 #define PresetsC_SminusSplus(l1, l2, v, o) FT(IS_SMSP(&g_ft, v, l1, l2, o))
+/* the two factories that may throw (contract proved in Part 1: throws iff equal orbitals or equal spins, else the documented term) */
+#define FT_THROWS(cond, pred) ({ __CPROVER_assert(!VERIF_thrown, "factory pre-condition: no pending exception"); g_ft = nondet_Term(); if (cond) VERIF_thrown = 1; else __CPROVER_assume(pred); &g_ft; })
+#define PresetsC_Spinflip(l, v, o1, o2, s1, s2) FT_THROWS((o1) == (o2) || (s1) == (s2), IS_SPINFLIP(&g_ft, v, l, o1, o2, s1, s2))
+#define PresetsC_PairHopping(l, v, o1, o2, s1, s2) FT_THROWS((o1) == (o2) || (s1) == (s2), IS_PAIRHOP(&g_ft, v, l, o1, o2, s1, s2))
+//@free Spinflip => PresetsC_Spinflip
+//@free PairHopping => PresetsC_PairHopping
+//@maythrow PresetsC_Spinflip PresetsC_PairHopping
 //@free Level => PresetsC_Level
 //@free SplusSminus => PresetsC_SplusSminus
 //@free SminusSplus => PresetsC_SminusSplus
 //@free Hopping(label_t,label_t,double,ushort,ushort,ushort,ushort) => PresetsC_Hopping7
 //@free NupNdown(label_t,label_t,double,ushort,ushort,ushort,ushort) => PresetsC_NupNdown7
 //@free NupNdown(label_t,double,ushort,ushort,ushort,ushort) => PresetsC_NupNdown6
-enum { PM_COULOMBS = 1, PM_LEVEL, PM_MAGNET, PM_SZSZ, PM_SS, PM_HOPPING, PM_HOPPING8 };
+enum { PM_COULOMBS = 1, PM_LEVEL, PM_MAGNET, PM_SZSZ, PM_SS, PM_HOPPING, PM_HOPPING8, PM_HOPDIAG, PM_HOPDIAG2 };
 struct PC { int mode; label_t l1, l2; double a1, a2; int gkind; unsigned short ga, gz1, gz2; unsigned long exp; long n; unsigned short gb; } g_pc;   /* constant during a call */
 struct PMS { unsigned long calls, hits; } g_pm;                                                                                 /* monitor state */
 #define KNOWN_(l) (0 <= SITEPOS(l) && SITEPOS(l) < g_pc.n)
@@ -287,8 +294,85 @@ static void pm_monitor(struct Lattice_Term *T)
                      "C04: addMagnetization term is the documented one up to the known factor 2 (D14 signature)");
   struct PMS s = g_pm; s.calls++; if (pm_ghost(&c)) { s.hits++; REACH("ghost_term"); } g_pm = s;
 }
-int Lattice_TermStorage_addTerm(struct Lattice_TermStorage *ts, struct Lattice_Term *T) { pm_monitor(T); return 0; }   /* L->Terms->addTerm(T) */
-void Lattice_addTerm(struct Lattice *L, struct Lattice_Term *T) { pm_monitor(T); }                                       /* L->addTerm(T) (validated there: specs/lattice.c) */
+/* ---- mode PM_COULOMBP (Kanamori interaction, LatticePresets::addCoulombP), compiled with -DPM_KANAMORI INSTEAD of the generic monitor above
+ * (same three checks; everything the monitor reads is a scalar of the constant ghost struct g_pk pinned in `requires`: no uninterpreted
+ * function and no read of the site array per call -- six call sites in five nested loops).  Documented operator (LatticePresets.h):
+ *   U SUM_{a, s>s'} n_{ias} n_{ias'}  +  U' SUM_{a!=a', s>s'} n_{ias} n_{ia's'}  +  (U'-J)/2 SUM_{a!=a', s} n_{ias} n_{ia's}
+ *   - J SUM_{a!=a', s>s'} ( c^+_{ias} c^+_{ia's'} c_{ia's} c_{ias'}  +  c^+_{ia's} c^+_{ia's'} c_{ias} c_{ias'} )   [+ SUM_{a,s} eps n_{ias}: parameter Level]
+ * Zero amplitudes: the Level, U, U' and J sums are not stored when their amplitude is zero ("zero-amplitude terms are ignored");
+ * the (U'-J)/2 sum carries no such filter in the documentation or the code: its members are demanded once each whatever the amplitude. */
+enum { PK_LEVEL = 0, PK_SAMESPIN, PK_U, PK_UP, PK_SPINFLIP, PK_PAIRHOP };
+struct PK { label_t l; double U, Up, J, eps, half, mJ;     /* half = (U'-J)/2, mJ = -J */
+            _Bool known; unsigned short no, ns;            /* the site is known; its numbers of orbitals and spins */
+            int gkind; unsigned short ga, gb, gz1, gz2; unsigned long exp; } g_pk;      /* constant during a call */
+#define OPVALID_K(T, p) ((T)->SiteLabels.d[p] == g_pk.l && (T)->Orbitals.d[p] < g_pk.no && (T)->Spins.d[p] < g_pk.ns)
+static _Bool pk_valid(const struct Lattice_Term *t)
+{
+  return g_pk.known && ((t->N == 2 && OPVALID_K(t, 0) && OPVALID_K(t, 1)) || (t->N == 4 && OPVALID_K(t, 0) && OPVALID_K(t, 1) && OPVALID_K(t, 2) && OPVALID_K(t, 3)));
+}
+static _Bool pk_sound(const struct Lattice_Term *t)
+{
+  label_t i = g_pk.l;
+  unsigned short a = t->Orbitals.d[0], a1 = t->Orbitals.d[1], a2 = t->Orbitals.d[2], s = t->Spins.d[0], s1 = t->Spins.d[1], s2 = t->Spins.d[2];
+  return (g_pk.eps != 0.0 && IS_LEVEL(t, g_pk.eps, i, a, s)) ||
+         (g_pk.U != 0.0 && IS_NN(t, g_pk.U, i, i, a, a, s, s2) && s > s2) ||                              /* U n_{ias} n_{ias'}, s > s' */
+         (g_pk.Up != 0.0 && IS_NN(t, g_pk.Up, i, i, a, a2, s, s2) && a != a2 && s > s2) ||                /* U' n_{ias} n_{ia's'}, a != a', s > s' */
+         (IS_NN(t, g_pk.half, i, i, a, a2, s, s) && a != a2) ||                                           /* (U'-J)/2 n_{ias} n_{ia's}, a != a' */
+         (g_pk.J != 0.0 && IS_SPINFLIP(t, g_pk.mJ, i, a, a1, s, s1) && a != a1 && s > s1) ||              /* -J c^+_{ias} c^+_{ia's'} c_{ia's} c_{ias'} */
+         (g_pk.J != 0.0 && IS_PAIRHOP(t, g_pk.mJ, i, a, a2, s, s1) && a != a2 && s > s1);                 /* -J c^+_{ia's} c^+_{ia's'} c_{ias} c_{ias'} (a' = ga, a = gb) */
+}
+static _Bool pk_ghost(const struct Lattice_Term *t)
+{
+  label_t i = g_pk.l; unsigned short a = g_pk.ga, b = g_pk.gb, s = g_pk.gz1, s2 = g_pk.gz2;
+  switch (g_pk.gkind) {
+  case PK_LEVEL:    return IS_LEVEL(t, g_pk.eps, i, a, s);
+  case PK_SAMESPIN: return IS_NN(t, g_pk.half, i, i, a, b, s, s);
+  case PK_U:        return IS_NN(t, g_pk.U, i, i, a, a, s, s2);
+  case PK_UP:       return IS_NN(t, g_pk.Up, i, i, a, b, s, s2);
+  case PK_SPINFLIP: return IS_SPINFLIP(t, g_pk.mJ, i, a, b, s, s2);
+  case PK_PAIRHOP:  return IS_PAIRHOP(t, g_pk.mJ, i, a, b, s, s2);
+  }
+  return 0;
+}
+static void pk_monitor(struct Lattice_Term *T)
+{
+  if (VERIF_thrown) return;          /* the factory call that produces the argument threw: addTerm is not executed */
+  struct Lattice_Term c = *T;
+  __CPROVER_assert(pk_valid(&c), "C20: every term handed to the storage refers to the known site and to orbitals / spins inside its range");
+  __CPROVER_assert(pk_sound(&c), "C04: every term handed to the storage belongs to one of the documented Kanamori sums, with the documented amplitude");
+  struct PMS s = g_pm; s.calls++; if (pk_ghost(&c)) {
+    s.hits++;
+    if (g_pk.gkind == PK_LEVEL) REACH("ghost_level"); if (g_pk.gkind == PK_SAMESPIN) REACH("ghost_samespin"); if (g_pk.gkind == PK_U) REACH("ghost_U");
+    if (g_pk.gkind == PK_UP) REACH("ghost_Up"); if (g_pk.gkind == PK_SPINFLIP) REACH("ghost_spinflip"); if (g_pk.gkind == PK_PAIRHOP) REACH("ghost_pairhop");
+  }
+  g_pm = s;
+}
+/* ---- modes PM_HOPDIAG / PM_HOPDIAG2 (-DPM_HOPDIAG_MON): sums of hopping terms built from calls of the 8-argument addHopping with Spin1 == Spin2.
+ * PM_HOPDIAG:  addHopping(L,i,j,t,a,a') = SUM_s t c^+_{ias} c_{ja's} + h.c.   constants g_pc.l1, l2, a1 = t, ga = a, gb = a'; ghost member: spin gz1
+ * PM_HOPDIAG2: addHopping(L,i,j,t)      = SUM_{s a} t c^+_{ias} c_{jas} + h.c. constants g_pc.l1, l2, a1 = t; ghost member: orbital ga (= gb), spin gz1
+ * gkind 0: the term, 1: its Hermitian conjugate. */
+static void ph_monitor(struct Lattice_Term *T)
+{
+  struct Lattice_Term c = *T;
+  unsigned short s = c.Spins.d[0];
+  unsigned short a = g_pc.mode == PM_HOPDIAG ? g_pc.ga : c.Orbitals.d[0], b = g_pc.mode == PM_HOPDIAG ? g_pc.gb : c.Orbitals.d[0];
+  __CPROVER_assert(g_pc.mode == PM_HOPDIAG || g_pc.mode == PM_HOPDIAG2, "monitor variant matches the mode");
+  __CPROVER_assert(pm_valid(&c), "C20: every term handed to the lattice refers to known sites and to orbitals / spins inside their range");
+  __CPROVER_assert(IS_HOPPING(&c, g_pc.a1, g_pc.l1, g_pc.l2, a, b, s, s) || IS_HOPPING(&c, g_pc.a1, g_pc.l2, g_pc.l1, b, a, s, s),
+                   "C04: every term handed to the lattice is t c^+_{ias} c_{ja's} or its Hermitian conjugate for some spin s (PM_HOPDIAG2: some orbital a = a' and some spin s)");
+  struct PMS m = g_pm; m.calls++;
+  if (g_pc.gkind == 0 ? IS_HOPPING(&c, g_pc.a1, g_pc.l1, g_pc.l2, g_pc.ga, g_pc.gb, g_pc.gz1, g_pc.gz1) : IS_HOPPING(&c, g_pc.a1, g_pc.l2, g_pc.l1, g_pc.gb, g_pc.ga, g_pc.gz1, g_pc.gz1)) { m.hits++; REACH("ghost_term"); }
+  g_pm = m;
+}
+#ifdef PM_KANAMORI
+#define PM_SINK pk_monitor
+#elif defined(PM_HOPDIAG_MON)
+#define PM_SINK ph_monitor
+#else
+#define PM_SINK pm_monitor
+#endif
+int Lattice_TermStorage_addTerm(struct Lattice_TermStorage *ts, struct Lattice_Term *T) { PM_SINK(T); return 0; }   /* L->Terms->addTerm(T) */
+void Lattice_addTerm(struct Lattice *L, struct Lattice_Term *T) { PM_SINK(T); }                                       /* L->addTerm(T) (validated there: specs/lattice.c) */
 
 #define PL (&L->Sites)
 #define K1 (0 <= SITEPOS(Label1) && SITEPOS(Label1) < PL->n)
@@ -353,6 +437,74 @@ __CPROVER_decreases(z1 - z2)
 //@end
 //@harness h_addCoulombS enforce=LatticePresets_addCoulombS props=C04,C20 min_obl=4638 reach=3 objbits=8 timeout=400
 void h_addCoulombS(void) { struct Lattice *L; label_t l; double u, e; LatticePresets_addCoulombS(L, l, u, e); if (VERIF_thrown) REACH("thrown"); REACH("exit"); }
+
+/* ---- addCoulombP (Kanamori): monitor pk_monitor (-DPM_KANAMORI), ghost struct g_pk */
+#define PK_PRE __CPROVER_requires(__CPROVER_is_fresh(L, sizeof(*L)) && SiteMap_wf_nosums(PL) && !VERIF_thrown && g_pm.calls == 0 && g_pm.hits == 0)
+#ifdef PK_ONLY          /* decomposition by sum: the ghost member ranges over ONE of the six documented sums (all six harnesses together = the full contract) */
+#define PK_KIND_OK (g_pk.gkind == PK_ONLY)
+#else
+#define PK_KIND_OK (PK_LEVEL <= g_pk.gkind && g_pk.gkind <= PK_PAIRHOP)
+#endif
+#define PK_TWO_ORB (g_pk.gkind == PK_SAMESPIN || g_pk.gkind >= PK_UP)        /* sums over a != a' */
+#define PK_TWO_SPIN (g_pk.gkind >= PK_U)                                    /* sums over s > s' */
+//@maythrow LatticePresets_addCoulombP6 LatticePresets_addCoulombP5
+//@free addCoulombP => LatticePresets_addCoulombP6
+//@function Pomerol::LatticePresets::addCoulombP(Pomerol::Lattice*, std::__cxx11::basic_string<char, std::char_traits<char>, std::allocator<char> > const&, double, double, double, double) as LatticePresets_addCoulombP6
+//@contract
+PK_PRE
+__CPROVER_requires(g_pk.l == Label && D_SAME(g_pk.U, U) && D_SAME(g_pk.Up, U_p) && D_SAME(g_pk.J, J) && D_SAME(g_pk.eps, Level))
+/* the documented amplitudes (U'-J)/2 and -J */
+__CPROVER_requires(D_SAME(g_pk.half, D_DIV(D_SUB(U_p, J), 2.0)) && D_SAME(g_pk.mJ, D_NEG(J)))
+__CPROVER_requires(g_pk.known == K1 && (K1 ==> (g_pk.no == O1 && g_pk.ns == Z1)))
+/* ghost member of the documented set: kind, orbitals ga (a), gb (a' != a), spins gz1 (s), gz2 (s' < s) inside the site's ranges */
+__CPROVER_requires(PK_KIND_OK && g_pk.ga < g_pk.no && g_pk.gz1 < g_pk.ns && (PK_TWO_ORB ==> (g_pk.gb < g_pk.no && g_pk.gb != g_pk.ga)) && (PK_TWO_SPIN ==> g_pk.gz2 < g_pk.gz1))
+__CPROVER_requires(g_pk.exp == ((g_pk.gkind == PK_LEVEL ? Level != 0.0 : g_pk.gkind == PK_SAMESPIN ? 1 : g_pk.gkind == PK_U ? U != 0.0 : g_pk.gkind == PK_UP ? U_p != 0.0 : J != 0.0) ? 1UL : 0UL))
+__CPROVER_assigns(VERIF_thrown, g_pm, g_ft)
+/* C20: unknown label; "Cannot add multiorbital interaction to a site with 1 orbital or 1 spin" */
+__CPROVER_ensures(VERIF_thrown == (!K1 || O1 <= 1 || Z1 <= 1))
+__CPROVER_ensures(VERIF_thrown ==> g_pm.calls == 0)
+__CPROVER_ensures(!VERIF_thrown ==> g_pm.hits == g_pk.exp)
+//@loop 1
+__CPROVER_assigns(i, VERIF_thrown, g_pm, g_ft)
+__CPROVER_loop_invariant(i <= Orbitals && !VERIF_thrown && (i <= g_pk.ga ? g_pm.hits == 0 : g_pm.hits == g_pk.exp))
+__CPROVER_decreases(Orbitals - i)
+//@loop 2
+__CPROVER_assigns(z1, VERIF_thrown, g_pm, g_ft)
+__CPROVER_loop_invariant(z1 <= Spins && !VERIF_thrown && (i == g_pk.ga ? (z1 <= g_pk.gz1 ? g_pm.hits == 0 : g_pm.hits == g_pk.exp) : g_pm.hits == __CPROVER_loop_entry(g_pm.hits)))
+__CPROVER_decreases(Spins - z1)
+//@loop 3
+__CPROVER_assigns(j, g_pm, g_ft)
+__CPROVER_loop_invariant(j <= Orbitals && !VERIF_thrown && ((i == g_pk.ga && z1 == g_pk.gz1 && g_pk.gkind == PK_SAMESPIN) ? (j <= g_pk.gb ? g_pm.hits == 0 : g_pm.hits == g_pk.exp) : g_pm.hits == __CPROVER_loop_entry(g_pm.hits)))
+__CPROVER_decreases(Orbitals - j)
+//@loop 4
+__CPROVER_assigns(z2, VERIF_thrown, g_pm, g_ft)
+__CPROVER_loop_invariant(z2 <= z1 && !VERIF_thrown && ((i == g_pk.ga && z1 == g_pk.gz1 && g_pk.gkind >= PK_U) ? (z2 <= g_pk.gz2 ? g_pm.hits == 0 : g_pm.hits == g_pk.exp) : g_pm.hits == __CPROVER_loop_entry(g_pm.hits)))
+__CPROVER_decreases(z1 - z2)
+//@loop 5
+__CPROVER_assigns(j, VERIF_thrown, g_pm, g_ft)
+__CPROVER_loop_invariant(j <= Orbitals && !VERIF_thrown && ((i == g_pk.ga && z1 == g_pk.gz1 && z2 == g_pk.gz2 && g_pk.gkind >= PK_UP) ? (j <= g_pk.gb ? g_pm.hits == 0 : g_pm.hits == g_pk.exp) : g_pm.hits == __CPROVER_loop_entry(g_pm.hits)))
+__CPROVER_decreases(Orbitals - j)
+//@end
+//@harness h_addCoulombP enforce=LatticePresets_addCoulombP6 props=C04,C20 min_obl=3233 reach=8 objbits=8 defs=-DPM_KANAMORI timeout=600
+void h_addCoulombP(void) { struct Lattice *L; label_t l; double u, up, j, e; LatticePresets_addCoulombP6(L, l, u, up, j, e); if (VERIF_thrown) REACH("thrown"); REACH("exit"); }
+/* ---- addCoulombP(L, label, U, J, Level): "A shortcut ... with U' = U - 2J, i.e. U_p = U - 2.0*J": the same contract with U' := U - 2.0*J; the
+ * callee is replaced by its contract proved above (its pre-condition pins every argument of the call: the ghost amplitudes are those of (U, U-2J, J, Level)) */
+#define U_P5 D_SUB(U, D_MUL(2.0, J))
+//@function Pomerol::LatticePresets::addCoulombP(Pomerol::Lattice*, std::__cxx11::basic_string<char, std::char_traits<char>, std::allocator<char> > const&, double, double, double) as LatticePresets_addCoulombP5
+//@contract
+PK_PRE
+__CPROVER_requires(g_pk.l == Label && D_SAME(g_pk.U, U) && D_SAME(g_pk.Up, U_P5) && D_SAME(g_pk.J, J) && D_SAME(g_pk.eps, Level))
+__CPROVER_requires(D_SAME(g_pk.half, D_DIV(D_SUB(g_pk.Up, J), 2.0)) && D_SAME(g_pk.mJ, D_NEG(J)))
+__CPROVER_requires(g_pk.known == K1 && (K1 ==> (g_pk.no == O1 && g_pk.ns == Z1)))
+__CPROVER_requires(PK_KIND_OK && g_pk.ga < g_pk.no && g_pk.gz1 < g_pk.ns && (PK_TWO_ORB ==> (g_pk.gb < g_pk.no && g_pk.gb != g_pk.ga)) && (PK_TWO_SPIN ==> g_pk.gz2 < g_pk.gz1))
+__CPROVER_requires(g_pk.exp == ((g_pk.gkind == PK_LEVEL ? Level != 0.0 : g_pk.gkind == PK_SAMESPIN ? 1 : g_pk.gkind == PK_U ? U != 0.0 : g_pk.gkind == PK_UP ? g_pk.Up != 0.0 : J != 0.0) ? 1UL : 0UL))
+__CPROVER_assigns(VERIF_thrown, g_pm, g_ft)
+__CPROVER_ensures(VERIF_thrown == (!K1 || O1 <= 1 || Z1 <= 1))
+__CPROVER_ensures(VERIF_thrown ==> g_pm.calls == 0)
+__CPROVER_ensures(!VERIF_thrown ==> g_pm.hits == g_pk.exp)
+//@end
+//@harness h_addCoulombP5 enforce=LatticePresets_addCoulombP5 replace=LatticePresets_addCoulombP6 props=C04,C20 min_obl=191 reach=2 objbits=8 defs=-DPM_KANAMORI timeout=120
+void h_addCoulombP5(void) { struct Lattice *L; label_t l; double u, j, e; LatticePresets_addCoulombP5(L, l, u, j, e); if (VERIF_thrown) REACH("thrown"); REACH("exit"); }
 
 /* ---- addMagnetization: the documentation says mH 1/2 (n_up - n_down); KNOWN FINDING D14: the code stores +-mH */
 //@function Pomerol::LatticePresets::addMagnetization(Pomerol::Lattice*, std::__cxx11::basic_string<char, std::char_traits<char>, std::allocator<char> > const&, double) as LatticePresets_addMagnetization
@@ -454,6 +606,91 @@ __CPROVER_decreases(Orbitals - i)
 //@harness h_addHopping4 enforce=LatticePresets_addHopping4 props=C04,C20 min_obl=4170 reach=3 objbits=8 timeout=900 mem=40 tier=thorough timeout=2400
 void h_addHopping4(void) { struct Lattice *L; label_t l1, l2; double t; LatticePresets_addHopping4(L, l1, l2, t); if (VERIF_thrown) REACH("thrown"); REACH("exit"); }
 
+/* ---- addHopping(L, i, j, t, a, a', s): "A shortcut to addHopping t c^+_{i a s} c_{j a' s}": a thin caller of the 8-argument overload, which is
+ * REPLACED BY ITS CONTRACT (proved by h_addHopping8; its pre-condition pins every argument of the call to the ghost data) */
+#define O2_ SM_orb(SITEPOS(Label2))
+#define Z2_ SM_spin(SITEPOS(Label2))
+//@maythrow LatticePresets_addHopping7 LatticePresets_addHopping6 LatticePresets_addHopping8d
+//@function Pomerol::LatticePresets::addHopping(Pomerol::Lattice*, std::__cxx11::basic_string<char, std::char_traits<char>, std::allocator<char> > const&, std::__cxx11::basic_string<char, std::char_traits<char>, std::allocator<char> > const&, double, unsigned short, unsigned short, unsigned short) as LatticePresets_addHopping7
+//@contract
+ADD_PRE(PM_HOPPING8)
+__CPROVER_requires(g_pc.l1 == Label1 && g_pc.l2 == Label2 && D_SAME(g_pc.a1, t) && g_pc.ga == Orbital1 && g_pc.gb == Orbital2 && g_pc.gz1 == Spin && g_pc.gz2 == Spin &&
+   (g_pc.gkind == 0 || g_pc.gkind == 1) && g_pc.exp == ((Label1 == Label2 && Orbital1 == Orbital2) ? 2UL : 1UL))
+__CPROVER_assigns(VERIF_thrown, g_pm, g_ft)
+__CPROVER_ensures(VERIF_thrown == (!K1 || !K2 || Orbital1 >= O1 || Orbital2 >= O2_ || Spin >= Z1 || Spin >= Z2_))
+__CPROVER_ensures(VERIF_thrown ==> g_pm.calls == 0)
+__CPROVER_ensures(!VERIF_thrown ==> (g_pm.calls == 2 && g_pm.hits == g_pc.exp))
+//@end
+//@harness h_addHopping7 enforce=LatticePresets_addHopping7 replace=LatticePresets_addHopping8 props=C04,C20 min_obl=187 reach=2 objbits=8 timeout=120
+void h_addHopping7(void) { struct Lattice *L; label_t l1, l2; double t; unsigned short a, b, s; LatticePresets_addHopping7(L, l1, l2, t, a, b, s); if (VERIF_thrown) REACH("thrown"); REACH("exit"); }
+
+/* ---- addHopping(L, i, j, t, a, a'): "SUM_s t c^+_{i a s} c_{j a' s}" (+ h.c., as added by the 8-argument overload): a loop of calls
+ * addHopping(L,i,j,t,a,a',z,z).  The callee is extracted a second time (addHopping8d) with a contract RELATIVE to the monitor state
+ * (two more terms; the ghost member is among them iff the spin of this call is the ghost spin), proved by h_addHopping8d with the
+ * monitor ph_monitor, and replaced by that contract in the loop. */
+//@function Pomerol::LatticePresets::addHopping(Pomerol::Lattice*, std::__cxx11::basic_string<char, std::char_traits<char>, std::allocator<char> > const&, std::__cxx11::basic_string<char, std::char_traits<char>, std::allocator<char> > const&, double, unsigned short, unsigned short, unsigned short, unsigned short) as LatticePresets_addHopping8d
+//@contract
+__CPROVER_requires(__CPROVER_is_fresh(L, sizeof(*L)) && SiteMap_wf_nosums(PL) && !VERIF_thrown && (g_pc.mode == PM_HOPDIAG || g_pc.mode == PM_HOPDIAG2) && g_pc.n == PL->n)
+__CPROVER_requires(g_pc.l1 == Label1 && g_pc.l2 == Label2 && D_SAME(g_pc.a1, t) && Spin1 == Spin2 && (g_pc.gkind == 0 || g_pc.gkind == 1))
+__CPROVER_requires(g_pc.mode == PM_HOPDIAG ? (g_pc.ga == Orbital1 && g_pc.gb == Orbital2) : (Orbital1 == Orbital2 && g_pc.ga == g_pc.gb))
+__CPROVER_assigns(VERIF_thrown, g_pm, g_ft)
+__CPROVER_ensures(VERIF_thrown == (!K1 || !K2 || Orbital1 >= O1 || Orbital2 >= O2_ || Spin1 >= Z1 || Spin2 >= Z2_))
+__CPROVER_ensures(VERIF_thrown ==> (g_pm.calls == __CPROVER_old(g_pm.calls) && g_pm.hits == __CPROVER_old(g_pm.hits)))
+/* exactly two more terms (both of the documented form: monitor); the ghost member is among them iff the orbitals and the spin of this call are the ghost's (twice if it is its own conjugate) */
+__CPROVER_ensures(!VERIF_thrown ==> (g_pm.calls == __CPROVER_old(g_pm.calls) + 2 &&
+     g_pm.hits == __CPROVER_old(g_pm.hits) + ((Spin1 == g_pc.gz1 && Orbital1 == g_pc.ga && Orbital2 == g_pc.gb) ? ((Label1 == Label2 && Orbital1 == Orbital2) ? 2UL : 1UL) : 0UL)))
+//@end
+//@harness h_addHopping8d enforce=LatticePresets_addHopping8d props=C04,C20 min_obl=589 reach=3 objbits=8 defs=-DPM_HOPDIAG_MON timeout=300
+void h_addHopping8d(void) { struct Lattice *L; label_t l1, l2; double t; unsigned short a, b, s1, s2; LatticePresets_addHopping8d(L, l1, l2, t, a, b, s1, s2); if (VERIF_thrown) REACH("thrown"); REACH("exit"); }
+//@free addHopping => LatticePresets_addHopping8d
+//@function Pomerol::LatticePresets::addHopping(Pomerol::Lattice*, std::__cxx11::basic_string<char, std::char_traits<char>, std::allocator<char> > const&, std::__cxx11::basic_string<char, std::char_traits<char>, std::allocator<char> > const&, double, unsigned short, unsigned short) as LatticePresets_addHopping6
+//@contract
+ADD_PRE(PM_HOPDIAG)
+__CPROVER_requires(g_pc.l1 == Label1 && g_pc.l2 == Label2 && D_SAME(g_pc.a1, t) && g_pc.ga == Orbital1 && g_pc.gb == Orbital2 && (g_pc.gkind == 0 || g_pc.gkind == 1))
+/* ghost member: kind 0: t c^+_{i a gz1} c_{j a' gz1};  kind 1: its conjugate (the same term if i == j and a == a') */
+__CPROVER_requires(K1 ==> g_pc.gz1 < Z1)
+__CPROVER_requires(g_pc.exp == ((Label1 == Label2 && Orbital1 == Orbital2) ? 2UL : 1UL))
+__CPROVER_assigns(VERIF_thrown, g_pm, g_ft)
+/* unknown label, orbital outside the respective site's range, or different numbers of spins */
+__CPROVER_ensures(VERIF_thrown == (!K1 || !K2 || Orbital1 >= O1 || Orbital2 >= O2_ || Z1 != Z2_))
+__CPROVER_ensures(VERIF_thrown ==> g_pm.calls == 0)
+/* two terms per spin, each documented one exactly once */
+__CPROVER_ensures(!VERIF_thrown ==> (g_pm.calls == 2UL * Z1 && g_pm.hits == g_pc.exp))
+//@loop 1
+__CPROVER_assigns(z, VERIF_thrown, g_pm, g_ft)
+__CPROVER_loop_invariant(0 <= z && z <= Spins && !VERIF_thrown && g_pm.calls == 2UL * (unsigned long)z && GH(z <= g_pc.gz1))
+__CPROVER_decreases(Spins - z)
+//@end
+//@harness h_addHopping6 enforce=LatticePresets_addHopping6 replace=LatticePresets_addHopping8d props=C04,C20 min_obl=386 reach=2 objbits=8 timeout=300
+void h_addHopping6(void) { struct Lattice *L; label_t l1, l2; double t; unsigned short a, b; LatticePresets_addHopping6(L, l1, l2, t, a, b); if (VERIF_thrown) REACH("thrown"); REACH("exit"); }
+/* ---- addHopping(L, i, j, t) once more, as a caller of the relative contract of the 8-argument overload (quick-tier counterpart of h_addHopping4, which inlines
+ * the callee): same contract, mode PM_HOPDIAG2 */
+//@maythrow LatticePresets_addHopping4r
+//@function Pomerol::LatticePresets::addHopping(Pomerol::Lattice*, std::__cxx11::basic_string<char, std::char_traits<char>, std::allocator<char> > const&, std::__cxx11::basic_string<char, std::char_traits<char>, std::allocator<char> > const&, double) as LatticePresets_addHopping4r
+//@contract
+ADD_PRE(PM_HOPDIAG2)
+__CPROVER_requires(g_pc.l1 == Label1 && g_pc.l2 == Label2 && D_SAME(g_pc.a1, t) && g_pc.ga == g_pc.gb && (g_pc.gkind == 0 || g_pc.gkind == 1))
+/* ghost member: kind 0: t c^+_{i ga gz1} c_{j ga gz1};  kind 1: its conjugate t c^+_{j ga gz1} c_{i ga gz1} (the same term twice if i == j) */
+__CPROVER_requires((K1 && K2) ==> (g_pc.ga < O1 && g_pc.gz1 < Z1))
+__CPROVER_requires(g_pc.exp == (Label1 == Label2 ? 2UL : 1UL))
+__CPROVER_assigns(VERIF_thrown, g_pm, g_ft)
+__CPROVER_ensures(VERIF_thrown == (!K1 || !K2 || SIZES_MISMATCH))
+__CPROVER_ensures(VERIF_thrown ==> g_pm.calls == 0)
+/* each documented term exactly once (the number of terms, 2 * spins * orbitals, is not stated: a product of two symbolic numbers) */
+__CPROVER_ensures(!VERIF_thrown ==> g_pm.hits == g_pc.exp)
+//@loop 1
+__CPROVER_assigns(z, VERIF_thrown, g_pm, g_ft)
+__CPROVER_loop_invariant(z <= Spins && !VERIF_thrown && GH(z <= g_pc.gz1))
+__CPROVER_decreases(Spins - z)
+//@loop 2
+__CPROVER_assigns(i, VERIF_thrown, g_pm, g_ft)
+__CPROVER_loop_invariant(i <= Orbitals && !VERIF_thrown && (z == g_pc.gz1 ? GH(i <= g_pc.ga) : g_pm.hits == __CPROVER_loop_entry(g_pm.hits)))
+__CPROVER_decreases(Orbitals - i)
+//@end
+//@harness h_addHopping4r enforce=LatticePresets_addHopping4r replace=LatticePresets_addHopping8d props=C04,C20 min_obl=100 reach=2 objbits=8 timeout=300
+void h_addHopping4r(void) { struct Lattice *L; label_t l1, l2; double t; LatticePresets_addHopping4r(L, l1, l2, t); if (VERIF_thrown) REACH("thrown"); REACH("exit"); }
+//@free addHopping => LatticePresets_addHopping8
+
 /* MUTATION RECORD (tools/try_mutant.py, src/pomerol/LatticePresets.cpp; all killed):
  *  F1 Spinflip orbitals {a,b,a,b}                   Presets_Spinflip.postcondition.2
  *  F2 Spinflip guard `||` -> `&&`                   Presets_Spinflip.postcondition.1
@@ -470,5 +707,19 @@ void h_addHopping4(void) { struct Lattice *L; label_t l1, l2; double t; LatticeP
  *   pm_monitor.assertion.2 ("C04: every term handed to the storage belongs to the documented sum, with the documented amplitude")
  *   and its consequence LatticePresets_addMagnetization.loop_invariant_step.2 (the ghost term (mH/2) n is never handed over).
  * UNDECIDED at the 8 GB limit of tools/run_cbmc.py (SAT solver out of memory, no failure reported): h_addSzSz, h_addSS, h_addHopping4.
- * NOT under contract yet: addCoulombP (both overloads), addHopping 5/6/8-argument overloads on their own (the 8-argument one is
- *   inlined into h_addHopping4), IndexHamiltonian::prepare. */
+ * Round 2 (tools/try_mutant.py-style runs in private output directories; all killed):
+ *  K1 addCoulombP same-spin loop `j<Orbitals` -> `j<Spins`     pk_monitor.assertion.1 (C20 validity, Spins > Orbitals), LatticePresets_addCoulombP6.loop_invariant_step.1/.18/.36 (completeness, Orbitals >= 3)
+ *  K2 addCoulombP (U_p-J)/2. -> (U_p-J)                        pk_monitor.assertion.2, loop_invariant_step.2/.10/.20/.28
+ *  K3 addCoulombP Spinflip(-J) -> Spinflip(J)                  pk_monitor.assertion.2, loop_invariant_step.12/.14/.30/.32
+ *  K4 addCoulombP `Orbitals<=1 || Spins<=1` -> `&&`            LatticePresets_addCoulombP6.postcondition.1
+ *  K5 addCoulombP(U,J,Level) U-2.0*J -> U-J                    LatticePresets_addCoulombP6.precondition.2/.3/.6 (call site in addCoulombP5)
+ *  K6 addCoulombP(U,J,Level) passes (..., Level, J)            LatticePresets_addCoulombP6.precondition.2/.3/.6
+ *  H1 addHopping/7 swaps Orbital1, Orbital2                    LatticePresets_addHopping7.postcondition.1, LatticePresets_addHopping8.precondition.2
+ *  H2 addHopping/6 spin loop starts at 1                       LatticePresets_addHopping6.postcondition.3, loop_invariant_base.2
+ *  H3 addHopping/6 spin sizes compared with Label1 (D10 shape) LatticePresets_addHopping6.postcondition.1/.2
+ *  H4 addHopping/8 conjugate keeps the orbital order           LatticePresets_addHopping8d.postcondition.3, ph_monitor.assertion.2/.3
+ *  H5 addHopping/8 `Spin1 >=` -> `Spin1 >`                     LatticePresets_addHopping8d.postcondition.1, ph_monitor.assertion.2
+ *  H6 addHopping/6 passes (Orbital1, Orbital1)                 LatticePresets_addHopping6.postcondition.1, LatticePresets_addHopping8d.precondition.2, loop_invariant_step.2
+ * REMARK (not a violation of the documented operator): addCoulombP stores the (U'-J)/2 terms also when U' == J (amplitude zero): L->Terms->addTerm
+ *   bypasses the zero filter of Lattice::addTerm and the preset has no `if (std::abs(...))` guard for this sum, unlike for U, U', J and Level.
+ * NOT under contract: IndexHamiltonian::prepare is in specs/indexham.c. */
